@@ -76,6 +76,27 @@ T.append(tree('D10 tag commands', cmd('app', 'root', extra=[grp('Application Opt
         cmd('remote', 'tag', aliases=['r'], own=grp('', [opt('', 'url', 'scalar', 'string'), opt('v', 'vee', 'scalar', 'string')]))]),
     cmd('rm', 'tag', own=grp('', [opt('f', 'force')]))])))
 
+# D11 INI-oriented: strings, pointers, string maps, ini-name / no-ini / hidden, nested namespaced group, a command with a group
+T.append(tree('D11 ini', cmd('app', 'root', subOpt=True, extra=[grp('Application Options', [
+    opt('s', 'str', 'scalar', 'string'), opt('p', 'pstr', 'ptr', 'string'), opt('i', 'pint', 'ptr', 'int'),
+    opt('m', 'smap', 'map', 'string'), opt('l', 'list', 'slice', 'string'),
+    opt('n', 'num', 'scalar', 'int', base=16, iniName='Number'), opt('d', 'dflt', 'scalar', 'string', defaults=['dv']),
+    opt('', 'secret', 'scalar', 'string', noIni=True), opt('', 'hid', 'scalar', 'string', hidden=True), opt('b', 'bool')],
+    [grp('Sub', [opt('', 'x', 'scalar', 'string'), opt('', 'ys', 'slice', 'int')], ns='sub')])],
+    cmds=[cmd('add', 'exec', subOpt=True, extra=[grp('Add Options', [opt('', 'name', 'scalar', 'string'), opt('t', 'tags', 'slice', 'string')])])])))
+# D12 value sources: default tags x0/1/2, env with and without delimiter, env-namespace, presets, on scalar / slice / map / pointer
+T.append(tree('D12 sources', cmd('app', 'root', extra=[grp('Application Options', [
+    opt('a', 'plain', 'scalar', 'string'),
+    opt('b', 'one', 'scalar', 'string', defaults=['d1']),
+    opt('c', 'envd', 'scalar', 'string', defaults=['d1'], env='VF_A'),
+    opt('l', 'list', 'slice', 'string', defaults=['d1', 'd2'], env='VF_B', envDelim=','),
+    opt('m', 'map', 'map', 'string', defaults=['k:d1'], env='VF_C', envDelim=';'),
+    opt('p', 'ptr', 'ptr', 'string', defaults=['d1']),
+    opt('q', 'pre', 'scalar', 'string', init=['init']),
+    opt('r', 'prel', 'slice', 'string', init=['i1', 'i2']),
+    opt('f', 'flag')],
+    [grp('Env Group', [opt('', 'ge', 'scalar', 'string', env='VF_D')], envNs='N')])])))
+
 with open('argparse.ndjson', 'w') as f:
     for i, t in enumerate(T, 1):
         t['id'] = i
